@@ -7049,7 +7049,11 @@ size_t ZSTD_compressSequences(ZSTD_CCtx* cctx,
 static ZSTD_inBuffer inBuffer_forEndFlush(const ZSTD_CStream* zcs)
 {
     const ZSTD_inBuffer nullInput = { NULL, 0, 0 };
-    const int stableInput = (zcs->appliedParams.inBufferMode == ZSTD_bm_stable);
+    /* before the frame starts, appliedParams still describes the previous frame :
+     * input deferred in stable mode (stableIn_notConsumed) is what tells a stable buffer is in use */
+    const int stableInput = (zcs->streamStage == zcss_init)
+                          ? (zcs->stableIn_notConsumed != 0)
+                          : (zcs->appliedParams.inBufferMode == ZSTD_bm_stable);
     return stableInput ? zcs->expectedInBuffer : nullInput;
 }
 
